@@ -16,6 +16,11 @@ PROPS = {
     "C01": P(1, ["C01"]),
     "C02": P(2, ["C02"]),
     "C03": P(3, ["C03"]),
+    "C04": P(4, ["C04"], stateful=True),
+    "C05": P(5, ["C05"], stateful=True),
+    "C06": P(6, ["C06"], stateful=True),
+    "C07": P(7, ["C07"], stateful=True),
+    "C17": P(17, ["C17"], stateful=True),
     "C15": P(15, ["C15"]),
     "C16": P(16, ["C16"],
         rule="model obs == Go obs (CORR) for every g64.* op; PROP verdict computed on Nat (Nat.log2, paths, minimal LE bytes) independent of the model; "
